@@ -183,6 +183,8 @@ def tree_tags(T, d):
         elif cn == 'WindowFunction':
             if type(getattr(n, 'function', None)).__name__ != 'Function':
                 out.add('window:nonfunction')
+            elif getattr(n.function, 'parentheses', False):
+                out.add('window:parenthesised-function')       # ( f() ) OVER (...): OVER after a parenthesised expression
         elif cn == 'Identifier':
             for i, p_ in enumerate(n.parts):
                 if isinstance(p_, str):
